@@ -7,7 +7,7 @@ open Incrgen
 type case = Incrgen.case
 let id = "C03"
 let rule = "RESP replication streams (SELECT switches incl. filtered and repeated dbs, single/multi-key writes, PING, MULTI/EXEC blocks, sentinel hello \
-publishes, eval/script, opinfo, keep-alive newlines, upper/lower-case names) x 12 configurations (db/key/lua filters, target.db in {-1,0,2,5}, target.db with resume, target.db naming a database the lists exclude, resume on/off, \
+publishes, eval/script, opinfo, keep-alive newlines, upper/lower-case names) x 11 configurations (db/key/lua filters, target.db in {-1,0,2,5}, target.db with resume, target.db naming a database the lists exclude, resume on/off, \
 sender count 1/2/3/100, sender size 40/1e6) x resumed start db x a 700 ms pause inside the stream (ticker flushes), plus a stream of 2100 commands with metric = true and a one-slot delay-sampling channel; fed through the real \
 parser/sender goroutine pair (hooks) into a recording connection; non-trivial = at least one forwarded command and one barrier or threshold flush; distinct by wire line"
 
